@@ -561,7 +561,7 @@ pub mod dalek_sig_serde {
 				}
 				let mut b = [0u8; 64];
 				b.copy_from_slice(&bytes[0..64]);
-				DalekSignature::try_from(b).map_err(|err| Error::custom(err.to_string()))
+				DalekSignature::try_from(&b[..]).map_err(|err| Error::custom(err.to_string()))
 			})
 	}
 }
@@ -601,7 +601,7 @@ pub mod option_dalek_sig_serde {
 					}
 					let mut b = [0u8; 64];
 					b.copy_from_slice(&bytes[0..64]);
-					DalekSignature::try_from(b)
+					DalekSignature::try_from(&b[..])
 						.map(Some)
 						.map_err(|err| Error::custom(err.to_string()))
 				}),
@@ -643,7 +643,7 @@ pub mod option_dalek_sig_base64 {
 					}
 					let mut b = [0u8; 64];
 					b.copy_from_slice(&bytes[0..64]);
-					DalekSignature::try_from(b)
+					DalekSignature::try_from(&b[..])
 						.map(Some)
 						.map_err(|err| Error::custom(err.to_string()))
 				}),
